@@ -464,6 +464,33 @@ theorem toMat_eq_fromBlocks (a : QMat) (r₁ r₂ c₁ c₂ : Nat) :
   refine Fin.addCases (fun i => ?_) (fun i => ?_) i <;> refine Fin.addCases (fun j => ?_) (fun j => ?_) j <;>
     simp [finSumFinEquiv_symm_apply_castAdd, finSumFinEquiv_symm_apply_natAdd, get_block]
 
+/-- a 2 × 2 arrangement `vstack (hstack a b) (hstack c d)` is `Matrix.fromBlocks` of the four views -/
+theorem toMat_vstack_hstack (a b c d : QMat) (r₁ r₂ c₁ c₂ : Nat) (har : a.rows = r₁) (hac : a.cols = c₁)
+    (hbc : b.cols = c₂) (hcr : c.rows = r₂) (hcc : c.cols = c₁) (hdc : d.cols = c₂) :
+    (vstack (hstack a b) (hstack c d)).toMat (r₁ + r₂) (c₁ + c₂) =
+      (Matrix.fromBlocks (a.toMat r₁ c₁) (b.toMat r₁ c₂) (c.toMat r₂ c₁) (d.toMat r₂ c₂)).submatrix
+        finSumFinEquiv.symm finSumFinEquiv.symm := by
+  have h1 : (hstack a b).rows = r₁ := har
+  have h2 : (hstack c d).rows = r₂ := hcr
+  have h3 : (hstack a b).cols = c₁ + c₂ := by rw [hstack_cols, hac, hbc]
+  ext i j
+  refine Fin.addCases (fun i => ?_) (fun i => ?_) i <;> refine Fin.addCases (fun j => ?_) (fun j => ?_) j
+  · rw [toMat_vstack_top _ _ r₁ r₂ _ h1 h2 h3, toMat_hstack_left a b r₁ c₁ c₂ har hac hbc]
+    simp [finSumFinEquiv_symm_apply_castAdd]
+  · rw [toMat_vstack_top _ _ r₁ r₂ _ h1 h2 h3, toMat_hstack_right a b r₁ c₁ c₂ har hac hbc]
+    simp [finSumFinEquiv_symm_apply_castAdd, finSumFinEquiv_symm_apply_natAdd]
+  · rw [toMat_vstack_bottom _ _ r₁ r₂ _ h1 h2 h3, toMat_hstack_left c d r₂ c₁ c₂ hcr hcc hdc]
+    simp [finSumFinEquiv_symm_apply_castAdd, finSumFinEquiv_symm_apply_natAdd]
+  · rw [toMat_vstack_bottom _ _ r₁ r₂ _ h1 h2 h3, toMat_hstack_right c d r₂ c₁ c₂ hcr hcc hdc]
+    simp [finSumFinEquiv_symm_apply_natAdd]
+
+/-- a column `M.toMat r 1` times nothing: reading a matrix equation `A X = B` with one right-hand column as `A *ᵥ x = b` -/
+theorem mulVec_of_mul_col (A : Matrix (Fin r) (Fin k) ℚ) (x b : QMat)
+    (h : A * x.toMat k 1 = b.toMat r 1) : A *ᵥ (fun i : Fin k => x.get i 0) = fun i : Fin r => b.get i 0 := by
+  funext i
+  have := congrFun (congrFun h i) (0 : Fin 1)
+  simpa [Matrix.mul_apply, Matrix.mulVec, dotProduct] using this
+
 theorem toMat_selectRows (a : QMat) (idx : List Nat) (R c : Nat) (hc : a.cols = c)
     (hidx : ∀ i, i < idx.length → idx.getD i 0 < R) :
     (selectRows a idx).toMat idx.length c =
